@@ -95,13 +95,16 @@ def scalar(rng):
     return N_ptr(N_int("uint8"))
 
 
-def member_struct(g, rng):
+def member_struct(g, rng, depth=0):
     fields = []
     for _ in range(rng.randint(1, 4)):
-        if rng.random() < 0.25:
+        x = rng.random()
+        if x < 0.25:
             g.bit_run(fields, [])
-        elif rng.random() < 0.2:
+        elif x < 0.4:
             fields.append(F(g.nm(), N_array(N_int(rng.choice(["uint8", "uint16", "uint24"])), L_fixed(rng.randint(1, 3)))))
+        elif x < 0.6 and depth < 2:
+            fields.append(F(g.nm(), member_struct(g, rng, depth + 1)))  # structures below the first level
         else:
             fields.append(F(g.nm(), scalar(rng)))
     return N_struct(fields)
@@ -122,7 +125,18 @@ def make_union_case(rng):
         elif x < 0.85:
             members.append(F(g.nm(), member_struct(g, rng)))
         elif x < 0.93 and not any(m["name"] is None for m in members):
-            members.append(F(None, member_struct(g, rng)))
+            members.append(F(None, member_struct(g, rng, 2)))
+        elif x < 0.96:
+            inner = N_struct([F(g.nm(), scalar(rng)), F(g.nm(), member_struct(g, rng, 2))], union=True)
+            members.append(F(g.nm(), inner))
+        elif x < 0.985:
+            # a nested union whose members all cover all of its bytes (so that dumping it loses nothing, K1-free):
+            # assignments through it must reach the outer union as well
+            pool = [N_int("uint32"), N_int("int32"), N_array(N_int("uint8"), L_fixed(4)),
+                    N_array(N_int("uint16"), L_fixed(2)), N_array(N_char(), L_fixed(4)), N_int("uint32")]
+            inner = N_struct([F(g.nm(), m) for m in rng.sample(pool, rng.randint(2, 3))], union=True)
+            inner["k1free"] = True
+            members.append(F(g.nm(), inner))
         else:
             members.append(F(g.nm(), g.enum_node()))
     shape = rng.random()
@@ -162,21 +176,36 @@ def lib_union(obj, top, upath):
     return getattr(obj, upath[0])
 
 
+def leaf_paths(snode, prefix=()):
+    """index paths to the named non-structure fields below a structure node (through named nested structures)"""
+    for j, g in enumerate(snode["fields"]):
+        if g["name"] is None:
+            continue
+        if g["t"]["k"] == "struct":
+            if not g["t"]["union"]:
+                yield from leaf_paths(g["t"], prefix + (j,))
+        else:
+            yield prefix + (j,)
+
+
 def assign_targets(unode):
-    """[(route, member index, inner field index|None)]"""
+    """[(route, member index, path of field indices below the member | None)]"""
     out = []
     for i, f in enumerate(unode["fields"]):
         t = f["t"]
         if f["name"] is not None:
-            out.append(("direct" if t["k"] != "array" else "array-replace", i, None))
+            if not (t["k"] == "struct" and t["union"]):
+                out.append(("direct" if t["k"] != "array" else "array-replace", i, None))
             if t["k"] == "struct" and not t["union"]:
-                for j, g in enumerate(t["fields"]):
-                    if g["name"] is not None and g["t"]["k"] != "struct":
-                        out.append(("nested-via-proxy", i, j))
+                for path in leaf_paths(t):
+                    out.append(("nested-via-proxy" if len(path) == 1 else "nested-deep", i, path))
+            if t["k"] == "struct" and t["union"] and t.get("k1free"):
+                for j in range(len(t["fields"])):
+                    out.append(("nested-union", i, (j,)))
         elif t["k"] == "struct":
-            for j, g in enumerate(t["fields"]):
-                if g["name"] is not None and g["t"]["k"] != "struct":
-                    out.append(("anonymous-struct-field", i, j))
+            for path in leaf_paths(t):
+                if len(path) == 1:
+                    out.append(("anonymous-struct-field", i, path))
     return out
 
 
@@ -287,24 +316,47 @@ def check_case(ctx, case, upath, rng):
                     hist.append((route, mf["name"], repr(model.clean(newv))[:80]))
                     setattr(u, lf._name, libv)
                 else:
-                    gf = mt["fields"][fj]
-                    glf = lf.type.__fields__[fj]
+                    import copy as _copy
+
+                    snode, ltype = mt, lf.type
+                    for j in fj[:-1]:
+                        ltype = ltype.__fields__[j].type
+                        snode = snode["fields"][j]["t"]
+                    gf = snode["fields"][fj[-1]]
+                    glf = ltype.__fields__[fj[-1]]
                     newv = model.random_value(gf["t"], rng, cfg, f=gf)
                     libv = lib.build(glf.type, gf["t"], newv, gf)
-                    if route == "nested-via-proxy":
-                        setattr(getattr(u, lf._name), glf._name, libv)
+                    member_value = _copy.deepcopy(cur)
+                    mv, names = member_value, []
+                    node_ = mt
+                    for j in fj[:-1]:
+                        names.append(node_["fields"][j]["name"])
+                        mv = mv[node_["fields"][j]["name"]]
+                        node_ = node_["fields"][j]["t"]
+                    mv[gf["name"]] = newv
+                    hist.append((route, ".".join([str(mf["name"])] + names + [gf["name"]]), repr(model.clean(newv))[:80]))
+                    if route == "nested-union":
+                        # the inner union's other members follow from its bytes
+                        raw_in, _ = model.dump(gf["t"], newv, cfg)
+                        ib = bytearray(model.dump(mt, cur, cfg)[0])
+                        ib[:len(raw_in)] = raw_in
+                        member_value, _ = model.parse(mt, bytes(ib), 0, cfg)
+                    if route in ("nested-via-proxy", "nested-deep", "nested-union"):
+                        tgt = getattr(u, lf._name)
+                        ll = lf.type
+                        for j in fj[:-1]:
+                            tgt = getattr(tgt, ll.__fields__[j]._name)
+                            ll = ll.__fields__[j].type
+                        setattr(tgt, glf._name, libv)
                     elif upath and upath[0].startswith("#") and rng.random() < 0.5:
                         setattr(obj, glf._name, libv)  # through both levels of attribute forwarding
                     else:
                         setattr(u, glf._name, libv)
-                    hist.append((route, f"{mf['name']}.{gf['name']}", repr(model.clean(newv))[:80]))
-                    member_value = dict(cur)
-                    member_value[gf["name"]] = newv
             except Exception as e:  # noqa: BLE001
                 if isinstance(e, UnicodeDecodeError):
                     # the new bytes are not valid UTF-16 for a wchar member of the union: no state to compare
                     try:
-                        raw, _ = model.dump(mt, member_value if fj is None else dict(cur, **{mt["fields"][fj]["name"]: newv}), cfg)
+                        raw, _ = model.dump(mt, member_value, cfg)
                         probe = bytearray(shadow)
                         probe[:len(raw)] = raw[:len(probe)]
                         model.parse_struct(unode, bytes(probe), 0, cfg, model.Notes())
@@ -334,6 +386,107 @@ def check_case(ctx, case, upath, rng):
                 viol("dump", f"containing-structure-dump-raises:{type(e).__name__}", error=lib.exc_sig(e))
 
 
+def offset_unions(ctx, n):
+    """Unions built through the Python API whose members have explicit offsets (Field(..., offset=k))."""
+    from dissect.cstruct import Field
+
+    for it in range(n):
+        rng = ctx.rng("offset-union", it)
+        g = gen.Gen(rng)
+        big = rng.choice([N_int("uint64"), N_array(N_int("uint8"), L_fixed(rng.randint(5, 9))), N_int("uint32"),
+                          N_array(N_int("uint16"), L_fixed(3))])
+        members = [F("base", big)]
+        for _ in range(rng.randint(1, 3)):
+            x = rng.random()
+            t = scalar(rng) if x < 0.6 else (N_array(N_int("uint8"), L_fixed(rng.randint(1, 3))) if x < 0.8
+                                              else N_struct([F(g.nm(), N_int("uint8")), F(g.nm(), N_int("uint16"))]))
+            if t["k"] in ("wchar", "float", "ptr"):
+                t = N_int("uint16")
+            members.append(F(g.nm(), t))
+        helper = gen.simple_case(members)          # struct T with the same member types, to obtain the type objects
+        helper["named"] = {}
+        for endian in "<>":
+            cfgd = {"endian": endian, "align": False, "compiled": False, "ptr": "uint64"}
+            cfg = engine.mcfg(helper, endian, False)
+            cs, err = engine.load_cfg(ctx, helper, cfgd)
+            if cs is None:
+                continue
+            size = model.size_of(big, cfg)
+            offs = [0]
+            for m in members[1:]:
+                ms = model.size_of(m["t"], cfg)
+                if ms > size:
+                    offs.append(0)
+                else:
+                    offs.append(rng.randint(0, size - ms))
+            if max(model.size_of(m["t"], cfg) for m in members) > size:
+                continue
+            U = cs._make_union("U", [Field(m["name"], lf.type, offset=o) for m, lf, o in
+                                     zip(members, cs.T.__fields__, offs)])
+            shadow = bytearray(rng.randrange(1, 256) for _ in range(size))
+
+            def viol(kind, sig, **kw):
+                ctx.violation(kind, sig, {"members": [(m["name"], engine.gen.base_spelling(m["t"]) if m["t"]["k"] != "array"
+                                                       else "array", o) for m, o in zip(members, offs)],
+                                          "endian": endian, "shadow": bytes(shadow).hex(), **kw})
+
+            def check(step):
+                for m, o in zip(members, offs):
+                    try:
+                        want, _ = model.parse(m["t"], bytes(shadow), o, cfg)
+                    except (model.ModelDecodeError, model.ModelEOF):
+                        return True
+                    got = lib.nan_clean(lib.norm(getattr(u, m["name"]), m["t"], strict=False))
+                    if got != lib.nan_clean(model.clean(want)):
+                        viol("coherence", "offset-member-differs-from-parse-of-the-union-bytes", step=step,
+                             member=m["name"], got=got, want=model.clean(want))
+                        return False
+                if len(u._buf) != size:
+                    viol("coherence", "union-buffer-length-changed", step=step, got=len(u._buf), want=size)
+                    return False
+                return True
+
+            try:
+                u = U(bytes(shadow))
+            except Exception as e:  # noqa: BLE001
+                viol("parse", f"offset-union-parse-raises:{type(e).__name__}", error=lib.exc_sig(e))
+                continue
+            ctx.cell("shape:explicit-offsets")
+            ctx.evaluation(("offset-union", it, endian))
+            if not check("after-parse"):
+                continue
+            hist = []
+            for step in range(rng.randint(2, 6)):
+                i = rng.randrange(len(members))
+                m, o = members[i], offs[i]
+                lf = U.__fields__[i]
+                try:
+                    if m["t"]["k"] == "struct" and rng.random() < 0.6:
+                        j = rng.randrange(len(m["t"]["fields"]))
+                        gf = m["t"]["fields"][j]
+                        nv = model.random_value(gf["t"], rng, cfg)
+                        cur, _ = model.parse(m["t"], bytes(shadow), o, cfg)
+                        cur[gf["name"]] = nv
+                        setattr(getattr(u, lf._name), lf.type.__fields__[j]._name, nv)
+                        raw, _ = model.dump(m["t"], cur, cfg)
+                        hist.append((m["name"] + "." + gf["name"], nv))
+                    else:
+                        nv = model.random_value(m["t"], rng, cfg)
+                        setattr(u, lf._name, lib.build(lf.type, m["t"], nv))
+                        raw, _ = model.dump(m["t"], nv, cfg)
+                        hist.append((m["name"], repr(nv)[:40]))
+                except Exception as e:  # noqa: BLE001
+                    viol("assign", f"offset-member-assignment-raises:{type(e).__name__}", history=hist,
+                         error=lib.exc_sig(e))
+                    break
+                shadow[o:o + len(raw)] = raw
+                ctx.evaluation(("offset-union", it, endian, repr(hist)))
+                ctx.cell("route:explicit-offset-member")
+                ctx.event("assignments")
+                if not check(f"after-assignment-{step}:{hist}"):
+                    break
+
+
 def witnesses(ctx):
     """Pinned witness of the open finding K1 (top-level union whose largest member is an anonymous structure)."""
     import random
@@ -352,6 +505,8 @@ def run(ctx):
     try:
         if ctx.shard == 0:
             witnesses(ctx)
+        if ctx.shard % 4 == 1:
+            offset_unions(ctx, 12 if not ctx.thorough else 150)
         for i in range(N_CASES[ctx.tier]):
             if ctx.out_of_time():
                 break
